@@ -181,11 +181,8 @@ where
         for (key, cache) in self.cache.iter() {
             let key_bytes = key.encode_vec();
             let cache_bytes = cache.encode_vec();
-            if cache.is_old(block_number) {
-                #[cfg(brc20_prog_verif)]
-                crate::verif::fp("cdb.cache_db.delete");
-                self.cache_db.delete(&key_bytes)?;
-            } else {
+            let is_old = cache.is_old(block_number);
+            if !is_old {
                 #[cfg(brc20_prog_verif)]
                 crate::verif::fp("cdb.cache_db.put");
                 self.cache_db.put(&key_bytes, &cache_bytes)?;
@@ -199,6 +196,14 @@ where
                 #[cfg(brc20_prog_verif)]
                 crate::verif::fp("cdb.db.delete");
                 self.db.delete(&key_bytes)?;
+            }
+
+            // A history that is dropped goes last: a reorg only visits keys that have one, so it
+            // must outlive the latest value it is rolling back
+            if is_old {
+                #[cfg(brc20_prog_verif)]
+                crate::verif::fp("cdb.cache_db.delete");
+                self.cache_db.delete(&key_bytes)?;
             }
         }
 
